@@ -58,6 +58,9 @@ func c02Values() []c02Named {
 		{"*string", sp("ptr")}, {"*float64", np(2.5)}, {"*bool", bp(true)}, {"safe((*string)(nil))", stick.NewSafeValue((*string)(nil), "html")}, {"[]Value{(*int)(nil)}", []stick.Value{(*int)(nil), (*string)(nil)}},
 		{"(*[]string)(nil)", (*[]string)(nil)}, {"(*map[string]int)(nil)", (*map[string]int)(nil)}, {"(*[2]int)(nil)", (*[2]int)(nil)}, {"**int(nil)", (**int)(nil)},
 		{`"\U0001F600\U00010000\U0010FFFF"`, "\U0001F600\U00010000\U0010FFFF"}, {`"\xff\xc3"`, "\xff\xc3"}, {`"a\x00b\x1f\u2028"`, "a\x00b\x1f\u2028"},
+		// letters whose other case has a different length in UTF-8 (U+0250 / U+023F: 2 -> 3 bytes, dotless i and long s: 2 -> 1,
+		// sharp s: 2 -> 2 letters, a digraph whose title case differs from its upper case), last in the string and after a blank
+		{`"\u0250"`, "\u0250"}, {`"x \u023f"`, "x \u023f"}, {`"\u0131 \u017f\u00df \u01c6"`, "\u0131 \u017f\u00df \u01c6"},
 	}
 }
 
@@ -447,6 +450,9 @@ func init() {
 	core.Register(&core.Check{
 		ID:       "C02",
 		Category: "exploration",
+		// the forms that build and print ranges of a million elements three times need seconds on a busy machine
+		// (seen once: > 10 s with eight other checks running on the same cores, reported as a hang)
+		CaseDeadline: 60 * time.Second,
 		Rule: "totality of Execute in supervised worker processes over: every binary operator x every pair of 42 context values (nil, bools, numbers incl. 1e308 / NaN / -0 / int8 min / uint64 max, strings, empty and non-empty slices, arrays, maps with string/int keys, nil maps, structs, pointers, nil pointers, time, decimal, Stringer, Number); 32 tag and expression forms consuming a value (for with and without key / inline if / else, if, set, do, include / embed / extends / use / import / from with the value as name or with-hash, block(), interpolation, literals, attribute chains, tests, callbacks, captures, macros, ranges) x every value; " +
 			"method calls with every argument list of length 0..3; in the twig environment every built-in filter x every value x every argument list of length 0..2 over 12 argument values, and filter sections with every ordered pair of filters; depth-2 operator compositions over 6^3 operands. Oracle: Execute returns (output or error); no panic, process death, memory blow-up or non-termination. distinct = distinct (template, context); non-trivial = all executed cases",
 		Assumptions: []string{
